@@ -25,7 +25,7 @@ struct Plan {
 
 fn plan(tier: Tier) -> Plan {
     match tier {
-        Tier::Quick => Plan { a_len: 5, s_k: 1, depth: 1, step_cap: 3_000, max_fault_pos: 6, widths: vec![Width::W8, Width::W64] },
+        Tier::Quick => Plan { a_len: 6, s_k: 1, depth: 1, step_cap: 3_000, max_fault_pos: 8, widths: vec![Width::W8, Width::W64] },
         Tier::Thorough => Plan { a_len: 7, s_k: 2, depth: 2, step_cap: 20_000, max_fault_pos: 12, widths: Width::ALL.to_vec() },
     }
 }
@@ -142,7 +142,8 @@ fn judge_program(ctx: &mut WorkerCtx, p: &Plan, code: &[u8]) {
                             // limited twin as a screen so that a backend that fails to stop stays cheap
                             let budget = diff::screen_budget(canon);
                             let (r0, log0) = run(Mode::Limited(budget));
-                            let outcome = if r0.panicked.is_none() && log0 == expected && r0.finished != Some(false) {
+                            // (what execute_limited reports after an I/O failure differs between backends and is not specified)
+                            let outcome = if r0.panicked.is_none() && log0 == expected {
                                 let (r, log) = run(Mode::Execute);
                                 IsoOutcome::Ran(diff::IsoRun { finished: None, panicked: r.panicked.or(r.err.map(|e| format!("returned Err {e:?}"))), canary_bad: 0, log })
                             } else if !diff::may_confirm_hang() {
